@@ -41,6 +41,21 @@ type c16Step struct {
 	// Acct replaces the account of a proof message by an address nobody holds a key for: zero20 (twenty zero bytes) |
 	// zero32 (a 32-byte address ending in twenty zero bytes); "" = the target key's own address
 	Acct string `json:"acct,omitempty"`
+	// Batch: recipients of a "vestbatch" step - one top-level tx carrying several vesting-creation messages
+	Batch []c16Rcpt `json:"batch,omitempty"`
+}
+
+type c16Rcpt struct {
+	Target int    `json:"target"`
+	Long   bool   `json:"long,omitempty"` // the 32-byte address that ends in the target's 20 bytes (another account altogether)
+	Kind   string `json:"kind"`           // vest | vestperiodic | vestperm
+}
+
+func (r c16Rcpt) acc() sdk.AccAddress {
+	if r.Long {
+		return sdk.AccAddress(append(bytes.Repeat([]byte{0xee}, 12), chain.ExtraKey(r.Target).Addr.Bytes()...))
+	}
+	return chain.ExtraKey(r.Target).Acc()
 }
 
 // c16ProofAccount is the account a proof step names.
@@ -94,6 +109,24 @@ func genC16(t *rapid.T) c16Case {
 			s.Kind = "fund"
 			if s.Submitter > 3 {
 				s.Submitter = 1
+			}
+			cs.Steps = append(cs.Steps, s)
+			continue
+		}
+		if rapid.IntRange(0, 7).Draw(t, "isbatch") == 0 {
+			// several vesting-creation messages in one top-level tx, to targets and to 32-byte addresses that end in a
+			// target's bytes: each recipient needs its own stored proof
+			s.Kind = "vestbatch"
+			if s.Submitter > 3 {
+				s.Submitter = 0
+			}
+			for n := rapid.IntRange(2, 3).Draw(t, "nbatch"); n > 0; n-- {
+				r := c16Rcpt{Target: rapid.IntRange(0, c16Targets-1).Draw(t, "btarget"), Long: rapid.IntRange(0, 2).Draw(t, "blong") == 0,
+					Kind: rapid.SampledFrom([]string{"vest", "vestperiodic", "vestperm"}).Draw(t, "bkind")}
+				if len(s.Batch) > 0 && rapid.Bool().Draw(t, "balias") {
+					r.Target, r.Long = s.Batch[0].Target, !s.Batch[0].Long
+				}
+				s.Batch = append(s.Batch, r)
 			}
 			cs.Steps = append(cs.Steps, s)
 			continue
@@ -260,6 +293,19 @@ func runC16(cs c16Case) *Outcome {
 			return banktypes.NewMsgSend(subAcc, chain.K(0).Acc(), sdk.NewCoins(sdk.NewCoin(chain.Denom, sdkmath.NewInt(1))))
 		}
 		msgs := []sdk.Msg{msg}
+		if st.Kind == "vestbatch" {
+			msgs = nil
+			for _, r := range st.Batch {
+				switch r.Kind {
+				case "vestperiodic":
+					msgs = append(msgs, vestingtypes.NewMsgCreatePeriodicVestingAccount(chain.K(st.Submitter).Acc(), r.acc(), 1700000000, []vestingtypes.Period{{Length: 100000, Amount: coins}}))
+				case "vestperm":
+					msgs = append(msgs, vestingtypes.NewMsgCreatePermanentLockedAccount(chain.K(st.Submitter).Acc(), r.acc(), coins))
+				default:
+					msgs = append(msgs, vestingtypes.NewMsgCreateVestingAccount(chain.K(st.Submitter).Acc(), r.acc(), coins, 1800000000, false))
+				}
+			}
+		}
 		if st.Nest > 0 {
 			depth := st.Nest
 			if st.Layout == "cleanfirst-inner" || st.Layout == "sendfirst-inner" {
@@ -372,6 +418,28 @@ func runC16(cs c16Case) *Outcome {
 				if !found {
 					o.dev("", "step %d (%+v): stored proof %x disappeared", si, st, kv.K)
 				}
+			}
+		case "vestbatch":
+			routes["batch"] = true
+			if succeeded {
+				o.label("vesting-batch-accepted")
+				for i, r := range st.Batch {
+					if !c16HasProofAcc(pre.Vauth, r.acc()) {
+						o.dev("", "step %d (%+v): message %d of an accepted batch created a vesting account for %s, an address without a stored ownership proof", si, st, i, r.acc())
+					}
+				}
+			} else {
+				o.label("vesting-batch-refused")
+				for _, r := range st.Batch {
+					if acc := c.App.AccountKeeper.GetAccount(c.CommittedCtx(), r.acc()); acc != nil {
+						if _, isV := acc.(vestexported.VestingAccount); isV && !c16HasProofAcc(pre.Vauth, r.acc()) {
+							o.dev("", "step %d (%+v): a refused batch left a vesting account at %s, which has no stored proof", si, st, r.acc())
+						}
+					}
+				}
+			}
+			if !kvEqual(pre.Vauth, post.Vauth) {
+				o.dev("", "step %d (%+v): a vesting batch changed the proof store", si, st)
 			}
 		default:
 			route := "top"
